@@ -227,6 +227,17 @@ class SpecEval:
                 o = self.term(n.args[0]); return SV(self.st.H("alloc", B)[o.v], BOOL)
             if name == "fresh":      # allocated during the call
                 o = self.term(n.args[0]); return SV(z3.And(self.st.H("alloc", B)[o.v], z3.Not(self.old.H("alloc", B)[o.v])), BOOL)
+            if name == "is_instance":
+                o = self.term(n.args[0]); k = self.term(n.args[1])
+                return SV(z3.Function("dyn_isinstance_of", Ref, Ref, B)(o.v, k.v), BOOL)
+            if name == "is_instance_named":
+                o = self.term(n.args[0])
+                if o.ty is VAL:
+                    return SV(z3.Function("val_isinstance", Val, Str, B)(o.v, self.eng.strconst(n.args[1].value)), BOOL)
+                return SV(z3.Function("dyn_isinstance", Ref, Str, B)(o.v, self.eng.strconst(n.args[1].value)), BOOL)
+            if name == "id_of":
+                o = self.term(n.args[0])
+                return SV(z3.Function("id_of", o.ty.sort, I)(o.v), INT)
             if name == "ambient_exc":
                 e = self.st.cur_exc
                 return SV(e.ref if e is not None else z3.Const("ambient_exc", Ref), RefT("BaseException"))
@@ -296,11 +307,17 @@ class SpecEval:
         return z3.And(*out)
 
     def isinst(self, o, clsnode):
+        if isinstance(clsnode, ast.Name) and clsnode.id in self.st.loc and self.st.loc[clsnode.id].ty.sort == Ref:
+            # isinstance(x, klass) with klass a run-time class object: uninterpreted predicate
+            return z3.Function("dyn_isinstance_of", Ref, Ref, B)(o.v, self.st.loc[clsnode.id].v)
         names = [c.id for c in clsnode.elts] if isinstance(clsnode, ast.Tuple) else [clsnode.id]
         if isinstance(o.ty, RefT):
             if any(self.eng.reg.is_subclass(o.ty.cls, nm) for nm in names): return o.v != NULL
             dyn = z3.Function("dyn_isinstance", Ref, Str, B)
             return z3.Or(*[dyn(o.v, self.eng.strconst(nm)) for nm in names])
+        if o.ty is VAL:
+            dynv = z3.Function("val_isinstance", Val, Str, B)
+            return z3.Or(*[dynv(o.v, self.eng.strconst(nm)) for nm in names])
         return z3.BoolVal(False)
 
     # ------------------------------------------------------------------ quantifiers
